@@ -93,7 +93,8 @@ def _worker_chunk(args):
         out['evaluations'] += 1
         if res.nontrivial:
             out['nontrivial'] += 1
-            out['sigs'].add(hashlib.sha1(res.signature.encode()).hexdigest()[:12])
+            for sg in (res.sigs or [res.signature]):
+                out['sigs'].add(hashlib.sha1(sg.encode()).hexdigest()[:12])
         for k, v in res.fired.items():
             out['fired'][k] = out['fired'].get(k, 0) + v
         for k, v in res.probes.items():
@@ -342,9 +343,9 @@ def run_check(pid, tier, base_seed, nproc=None, max_runs=None, write_evidence=Tr
         print('  key=%s' % key)
         print('  %s' % viol['message'][:1200].replace('\n', '\n  '))
         print('VIOLATION property=%s replay=%s' % (check.id, path))
-    print('%s: runs=%d (+%d sweep) nontrivial=%d distinct=%d wall=%.1fs faults=%s'
+    print('%s: runs=%d (+%d sweep) nontrivial=%d distinct=%d wall=%.1fs faults_fired=%d (%d kinds)'
           % (check.id, n, n_extra, agg['nontrivial'], len(agg['sigs']), wall,
-             json.dumps(agg['fired'], sort_keys=True)))
+             sum(agg['fired'].values()), len(agg['fired'])))
     if harness_msgs:
         for m in harness_msgs:
             print('HARNESS-ERROR %s' % m)
